@@ -22,6 +22,9 @@ fn vec_kind(r: &mut Rng, n: usize, q: u64, lim: u64, kind: u64) -> Vec<u64> {
         1 => vec![0; n],
         2 => (0..n).map(|_| if r.chance(1, 2) { lim - 1 } else { 0 }).collect(),
         3 => (0..n).map(|_| r.below(q)).collect(),
+        5 => { // exact multiples of q and their neighbours inside the admissible range (boundaries of the lazy reductions)
+            let c: Vec<u64> = [0, q, 2 * q, 3 * q, q - 1, q + 1, 2 * q - 1, 2 * q + 1, 3 * q - 1, lim - 1].iter().copied().filter(|&x| x < lim).collect();
+            (0..n).map(|_| if r.chance(1, 3) { 0 } else { c[r.below(c.len() as u64) as usize] }).collect() }
         _ => (0..n).map(|_| r.below(lim)).collect(),
     }
 }
@@ -29,6 +32,20 @@ fn vec_kind(r: &mut Rng, n: usize, q: u64, lim: u64, kind: u64) -> Vec<u64> {
 pub fn run(out: &mut Out, thorough: bool, seed: u64, _extra: &[String]) {
     let mut r = Rng::new(seed);
     let kmax = if thorough { 11 } else { 8 };
+    // ---- tiny modulus, sparse inputs enumerated: intermediate values hit exact multiples of q with high probability
+    {
+        let (k, q) = (3usize, 17u64); let n = 8usize; let m = Modulus::new(q);
+        if let Ok(t) = hu::NTTTables::new(k, &m) {
+            let vals: Vec<u64> = if thorough { (0..q).collect() } else { vec![0, 1, 2, 8, 9, 12, 16] };
+            let mut idx = vec![0usize; 4];
+            'outer: loop {
+                let mut v = vec![0u64; n]; for (j, &i) in idx.iter().enumerate() { v[2 * j] = vals[i]; }
+                out.case(&format!("ntt {} {} {}", k, q, fl(&v)), "tiny-sparse", || { let mut w = v.clone(); pm::ntt(&mut w, &t); fl(&w) });
+                if !thorough || idx[0] % 4 == 0 { out.case(&format!("ntt_lazy {} {} {}", k, q, fl(&v)), "tiny-sparse-lazy", || { let mut w = v.clone(); pm::ntt_lazy(&mut w, &t); fl(&w) }); }
+                let mut p = 0; loop { idx[p] += 1; if idx[p] < vals.len() { break; } idx[p] = 0; p += 1; if p == 4 { break 'outer; } }
+            }
+        }
+    }
     // ---- tables: primes of many sizes, built twice independently; composites and non-NTT-friendly moduli refused
     for k in 1..=kmax {
         let n = 1usize << k;
@@ -56,7 +73,8 @@ pub fn run(out: &mut Out, thorough: bool, seed: u64, _extra: &[String]) {
                     out.case(&lhs, &format!("unit-k{}", k), || { let mut w = v.clone(); pm::ntt(&mut w, &t); fl(&w) });
                 }
             }
-            for kind in 0..5u64 {
+            for kind in 0..8u64 {
+                let kind = if kind >= 5 { 5 } else { kind };
                 let v = vec_kind(&mut r, n, q, q, kind);
                 out.case(&format!("ntt {} {} {}", k, q, fl(&v)), &format!("vec{}-k{}b{}", kind, k, bits), || { let mut w = v.clone(); pm::ntt(&mut w, &t); fl(&w) });
                 let vl = vec_kind(&mut r, n, q, 4 * q, kind);   // lazy range maxima: inputs < 4q
